@@ -47,7 +47,8 @@ Three things are written, all obtained from the working tree named by VERIF_REPO
    replaced by a recording wrapper that answers True) and their result; the raw generic / exception / specific lists; and
    the report: `generate_supported_ops()` is run in a scratch directory and SUPPORTED_OPS.md is parsed into, per listed
    operator, the ordered list of constraint lines that apply to it (generic lines that do not name it in brackets, then
-   its specific section).
+   its specific section).  For the constraints whose sentence ends in a formatted value list (data types, operator types):
+   the printed values and, rendered independently, the set-valued class constant the predicate body reads (`value_lists`).
 """
 import ast
 import collections
@@ -1095,6 +1096,40 @@ def introspect():
             out["consts"][k] = v
         elif isinstance(v, tuple) and v and all(isinstance(x, int) and not isinstance(x, bool) for x in v):
             out["consts"][k] = list(v)
+    # value lists: constraints whose sentence ends in "...: {}" print a formatted set (data types / operator types); the set
+    # the predicate ENFORCES is the set-valued class constant its body reads (`cls.<NAME>`), rendered independently here
+    from ethosu.vela.data_type import DataType
+    from ethosu.vela.tflite_mapping import BUILTIN_OPERATOR_UNKNOWN
+    import inspect
+
+    def render(elem):
+        if isinstance(elem, DataType):
+            return str(elem)
+        if isinstance(elem, Op):
+            n = optype_to_builtintype(elem)
+            return None if n is BUILTIN_OPERATOR_UNKNOWN else str(n)
+        raise Unsupported("value of type %s in a documented set" % type(elem).__name__)
+    vl = []
+    for tag, cls in classes:
+        ctree = find_class(ast.parse(inspect.getsource(sys.modules[cls.__module__])), cls.__name__)
+        for node in ctree.body:
+            if not (isinstance(node, ast.FunctionDef) and node.name.startswith("constraint_")) or (tag, node.name) not in fid:
+                continue
+            template = ast.get_docstring(node, clean=False) or ""
+            if not template.endswith(": {}") or template.count("{}") != 1:
+                continue
+            prefix = template[:-2]
+            doc = fns[fid[(tag, node.name)]][1]
+            if not doc.startswith(prefix):
+                raise Unsupported("docstring of %s does not start with its template" % node.name)
+            printed = doc[len(prefix):].split(", ") if doc[len(prefix):] else []   # as printed (list_formatter sorts)
+            names = sorted(set(n.attr for n in ast.walk(node) if isinstance(n, ast.Attribute) and isinstance(n.value, ast.Name)
+                               and n.value.id == "cls" and isinstance(getattr(cls, n.attr, None), (set, frozenset))))
+            if len(names) != 1:
+                raise Unsupported("%s reads %d set-valued class constants (%s): cannot tell the enforced set" % (node.name, len(names), names))
+            enforced = sorted(set(x for x in (render(e) for e in getattr(cls, names[0])) if x is not None))
+            vl.append((fid[(tag, node.name)], prefix, printed, enforced, names[0]))
+    out["value_lists"] = vl
     # traced evaluation order of the real drivers: every constraint replaced by a recorder answering True
     rec = []
 
@@ -1255,6 +1290,12 @@ def generate():
     L.append("   specific section) *)")
     L.append("Definition report_rows : list (Z * Z * Z * list Z) := [\n%s\n].\n" % ";\n".join(
         "  (%d, %d, %d, %s)" % (c, o, ng, zlist(l)) for c, o, ng, l in rep_rows))
+    L.append("(* constraints whose sentence ends in a formatted value list: constraint id, the sentence up to the list, the values the")
+    L.append("   sentence prints (in printed order), the values of the set-valued class constant the predicate body reads (sorted, rendered as")
+    L.append("   the report renders them; operators without a TFLite name dropped) *)")
+    L.append("Definition value_lists : list (Z * list Z * list (list Z) * list (list Z)) := [\n%s\n].\n" % ";\n".join(
+        "  (%d, %s, [%s], [%s])  (* cls.%s *)" % (c, codes(pre), "; ".join(codes(x) for x in pr), "; ".join(codes(x) for x in en), cn)
+        for c, pre, pr, en, cn in data["value_lists"]))
     text = "\n".join(L) + "\n"
     report = {"GenConstraints." + k: None for k in tr.done}
     report.update({"GenConstraints." + k: v for k, v in tr.failed.items()})
